@@ -105,4 +105,13 @@ def opKeys : SyncOp → List String
   | .update _ k _ _ => [k]
   | _ => []
 
+def splitOpsAux : List String → List String → List (List String)
+  | [], cur => if cur = [] then [] else [cur.reverse]
+  | t :: ts, cur =>
+    if t = ";" then (if cur = [] then splitOpsAux ts [] else cur.reverse :: splitOpsAux ts [])
+    else splitOpsAux ts (t :: cur)
+
+def splitOps (toks : List String) : List (List String) := splitOpsAux toks []
+
+
 end Tc.Driver
